@@ -479,6 +479,42 @@ func (c *Ctx) c19ZeroArity() {
 // c19HostStructs: several values of one script struct type built by the host with NewStruct (also from ONE initialiser
 // slice used twice): every value keeps its own fields through GetAttr, through script functions and methods, next
 // to script-made instances; the host's initialiser slice is left alone
+// c19MapDuplicateKeys: NewMap from a pair list that names a key twice (the later pair overrides): the value reads
+// back as ONE entry per key through Len, Get, the host's Range and a script range loop, for every key type
+func (c *Ctx) c19MapDuplicateKeys() {
+	for _, k := range []struct {
+		name string
+		typ  goat.Type
+		key  func(int) goat.Value
+	}{
+		{"int", goat.TypeInt32, func(i int) goat.Value { return goat.Int(i) }},
+		{"string", goat.TypeString, func(i int) goat.Value { return goat.String(fmt.Sprint("k", i)) }},
+		{"float64", goat.TypeFloat64, func(i int) goat.Value { return goat.Float64(float64(i) + 0.5) }},
+	} {
+		m := goat.NewMap(k.typ, goat.TypeInt32, []goat.Value{k.key(1), goat.Int(10), k.key(2), goat.Int(20), k.key(1), goat.Int(30), k.key(3), goat.Int(5), k.key(2), goat.Int(21)})
+		c.Rep.Oracle["map-duplicate-keys"]++
+		n, sum := 0, 0
+		next := m.Range()
+		for i := 0; i < 100; i++ {
+			_, v, ok := next()
+			if !ok {
+				break
+			}
+			n++
+			sum += v.Int()
+		}
+		v1, ok1 := m.Get(k.key(1))
+		got := fmt.Sprint(m.Len(), v1.Int(), ok1, n, sum)
+		vm := goat.New()
+		vm.Set("main.m", m)
+		rets, err := vm.Eval(fstest.MapFS{}, "main", "n := 0\ns := 0\nfor _, v := range m {\n\tn++\n\ts += v\n}\nn*1000 + s + len(m)*100000\n")
+		got += " " + c19Show(rets, err)
+		if want := "3 30 true 3 56 ok 303056"; got != want {
+			c.Rep.Violate(Violation{Kind: "oracle", Cut: "map-duplicate-keys", Input: "NewMap(" + k.name + ", int32, [k1 10 k2 20 k1 30 k3 5 k2 21]): Len, Get(k1), entries and sum of Range; script: n*1000 + sum + len*100000", Impl: got, Oracle: want})
+		}
+	}
+}
+
 func (c *Ctx) c19HostStructs() {
 	r := c.RNG
 	var out bytes.Buffer
@@ -528,6 +564,7 @@ func (c *Ctx) c19HostStructs() {
 
 func (c *Ctx) c19RoundTrips(n int) {
 	c.c19HostStructs()
+	c.c19MapDuplicateKeys()
 	r := c.RNG
 	bad := func(what string, in, out any) {
 		c.Rep.Violate(Violation{Kind: "oracle", Cut: "roundtrip", Input: fmt.Sprintf("%s(%v)", what, in), Impl: fmt.Sprint(out), Oracle: fmt.Sprint(in)})
